@@ -52,8 +52,14 @@ static void vr_stuck(const char *where);    /* harness: nobody can act any more 
 static inline void as_agent(int k) { lp_ABTI_local = (k < 0) ? NULL : (ABTI_local *)ESP[k]; }
 static inline int cur_agent(void) { for (int k = 0; k < NES; k++) if (lp_ABTI_local == (ABTI_local *)ESP[k]) return k; return -1; }
 
+#ifdef VR_SP_EXTRA
+void VR_SP_EXTRA(void);
+#endif
 void vr_sp(void)
 {
+#ifdef VR_SP_EXTRA
+    VR_SP_EXTRA();     /* harness-specific monitor executed at every scheduling point */
+#endif
     if (vr_in_init || vr_depth >= VR_MAXDEPTH) return;
     vr_points++;
     int me = cur_agent();
@@ -74,6 +80,9 @@ static void sp_push(ABT_pool pool, ABT_unit unit, ABT_pool_context c)
         __CPROVER_assert((ABTI_pool *)pool == ULTP[i]->thread.p_pool, "unit pushed to its associated pool");
         sp_in[i] = 1; ULTP[i]->thread.is_in_pool.val = 1;
     }
+#ifdef VR_SP_EXTRA
+    VR_SP_EXTRA();     /* a push publishes the unit: other streams may act immediately */
+#endif
 }
 static ABT_thread sp_pop(ABT_pool pool, ABT_pool_context c)
 {
